@@ -201,6 +201,7 @@ def h_expr(e, family, lo, hi, spelling='lower'):
 
 
 WHILE_TESTS = {
+    'macro-bound': None,          # the bound is a macro that the body redefines: see h_while
     'plain': '\\value{i}<\\nb',
     'parenthesised': '\\( \\value{i}<\\nb \\)',
     'and-group': '\\value{i}<\\nb \\and \\( 1=1 \\or 1=2 \\)',
@@ -217,6 +218,10 @@ def h_while(e, nested=False, test='plain'):
         m = e.char('m', 48, 50)
         parts += ['\\newcounter{j}\\def\\mb{', m, '}',
                   '\\whiledo{\\value{i}<\\nb}{X\\setcounter{j}{0}\\whiledo{\\value{j}<\\mb}{Y\\stepcounter{j}}\\stepcounter{i}}Z']
+    elif test == 'macro-bound':
+        # the test reads a macro that the body redefines in its n-th round (a guard counter bounds the loop should the definition get lost)
+        parts = ['\\newcounter{i}\\newcounter{g}\\def\\go{1}\\def\\nb{', n, '}',
+                 '\\whiledo{\\go=1 \\and \\value{g}<9}{X\\stepcounter{i}\\stepcounter{g}\\ifthenelse{\\value{i}<\\nb}{}{\\def\\go{0}}}Z[\\go]']
     else:
         parts += ['\\whiledo{' + WHILE_TESTS[test] + '}{X\\stepcounter{i}}Z \\(q\\)']          # \( \) are math delimiters again after the loop
     got = _run(e, doc, parts)
@@ -228,6 +233,12 @@ def h_while(e, nested=False, test='plain'):
         M = api.ord_(m) - 48
         e.check(got.count('X') == N, 'outer loop ran %d times' % got.count('X'), 'loop-count')
         e.check(got.count('Y') == N * M, 'inner loop ran %d times in total' % got.count('Y'), 'loop-count')
+    elif test == 'macro-bound':
+        want = 1 if N <= 1 else N          # the body runs, then the definition it made ends the loop
+        e.check(got.count('X') == want, 'loop whose test reads a macro redefined in its body ran %d times' % got.count('X'), 'loop-count:body-definition')
+        e.check(got.endswith('[0]'), 'a definition made in the loop body is lost after the loop: %r' % got[-4:], 'loop-count:body-definition')
+        e.nontriv()
+        return
     else:
         e.check(got.count('X') == N, 'loop body ran %d times' % got.count('X'), 'loop-count')
     e.check((got.endswith('Z') or got.endswith('Zq')) and got.count('Z') == 1, 'text after the loop', 'loop-tail')
